@@ -193,9 +193,19 @@ def update_for_language(stmts, lang):
                 "fail",
         ]:
             specific = lang + "_" + clause
+            # Remember the language independent value (or its absence)
+            # so the statements can be updated for another language
+            # later in the same process.
+            generic = "_generic_" + clause
+            if generic not in item:
+                item[generic] = (clause in item, item.get(clause))
             if specific in item:
                 # XXX - maybe make sure clause does not already exist.
                 item[clause] = item[specific]
+            elif item[generic][0]:
+                item[clause] = item[generic][1]
+            elif clause in item:
+                del item[clause]
 
 
 def compute_stmt_permutations(out, parts):
